@@ -302,3 +302,95 @@ def equality_is_structural(repo, rid):
                       "disjunctions: %d; reviewed textual comparison missing: %s"
                       % (cn, attrs, missing, wrapped, len(disj), need_wrapped)))
     return obs
+
+
+# ---------------------------------------------------------------------------------------------- variance and kind tables
+
+VARIANCE_TABLE = {
+    # module-level object -> (is_invariant, is_covariant, is_contravariant, variance_to_str)
+    "Invariant": (True, False, False, ""),
+    "Covariant": (False, True, False, "out"),
+    "Contravariant": (False, False, True, "in"),
+}
+
+
+def variance_table(repo, rid):
+    """`Covariant`, `Contravariant` and `Invariant` are three objects of one class told apart by an integer; every variance
+    decision (containment direction, allowed projections, the `out` / `in` keyword that is printed) goes through
+    is_covariant() / is_contravariant() / is_invariant() / variance_to_str().  Decided by evaluating these four methods on
+    the value each named object is constructed with."""
+    from .absint import AObj, call_method
+    obs = []
+    mod = repo.module(T)
+    vc = repo.cls(T + ".Variance")
+    values = {}
+    for st in mod.tree.body:
+        if isinstance(st, ast.Assign) and len(st.targets) == 1 and isinstance(st.targets[0], ast.Name) and \
+                st.targets[0].id in VARIANCE_TABLE and isinstance(st.value, ast.Call) and call_name(st.value) == "Variance" \
+                and len(st.value.args) == 1:
+            a = st.value.args[0]
+            v = None
+            if isinstance(a, ast.Constant):
+                v = a.value
+            elif isinstance(a, ast.Attribute) and src(a.value) == "Variance" and vc.lookup_const(a.attr) is not None and \
+                    isinstance(vc.lookup_const(a.attr), ast.Constant):
+                v = vc.lookup_const(a.attr).value
+            values[st.targets[0].id] = v
+    if sorted(values) != sorted(VARIANCE_TABLE) or any(v is None for v in values.values()):
+        raise AnalysisError("the three variance objects are not `X = Variance(<constant>)`: %s" % values, rule=rid,
+                            anchor=T + ".Variance")
+    obs.append(Ob(rid, "variance-objects-are-distinct", "src/ir/types.py", len(set(values.values())) == 3,
+                  "Invariant / Covariant / Contravariant are constructed with %s" % values))
+    init = vc.methods.get("__init__")
+    stores = [n for n in iter_own_nodes(init.node) if isinstance(n, ast.Assign)] if init else []
+    field = None
+    if len(stores) == 1 and isinstance(stores[0].targets[0], ast.Attribute) and isinstance(stores[0].value, ast.Name) and \
+            stores[0].value.id == init.params[1]:
+        field = stores[0].targets[0].attr
+    if field is None:
+        raise AnalysisError("Variance.__init__ is not `self.<field> = value`", rule=rid, anchor=vc.qualname)
+    for nm, want in sorted(VARIANCE_TABLE.items()):
+        me = AObj(nm)
+        me.attrs[field] = values[nm]
+        me.cls = vc
+        got = tuple(call_method(me, vc, m_, [], {}) for m_ in ("is_invariant", "is_covariant", "is_contravariant",
+                                                                 "variance_to_str"))
+        obs.append(Ob(rid, "%s:predicates-and-keyword" % nm, _w(vc.methods["is_covariant"]), got == want,
+                      "%s (value %r): (is_invariant, is_covariant, is_contravariant, variance_to_str) evaluates to %s, must "
+                      "be %s" % (nm, values[nm], got, want)))
+    return obs
+
+
+KIND_TABLE = {
+    # class -> predicates that answer True; every other kind predicate answers False
+    "TypeParameter": {"is_type_var"},
+    "WildCardType": {"is_wildcard"},
+    "ParameterizedType": {"is_parameterized"},
+    "TypeConstructor": {"is_type_constructor"},
+    "SimpleClassifier": set(),
+    "Builtin": set(),
+    "NothingType": set(),
+}
+KIND_PREDICATES = ("is_type_var", "is_wildcard", "is_parameterized", "is_type_constructor")
+
+
+def kind_table(repo, rid):
+    """Every algorithm on types is a case analysis by `is_type_var()` / `is_wildcard()` / `is_parameterized()` /
+    `is_type_constructor()`.  Each class of the representation answers exactly its own kind (resolved along the MRO,
+    each a constant)."""
+    obs = []
+    for cn, true_ones in sorted(KIND_TABLE.items()):
+        c = repo.cls(T + "." + cn)
+        for pn in KIND_PREDICATES:
+            m = c.lookup(pn)
+            got = "no definition"
+            if m is not None:
+                body = [s for s in m.node.body if not (isinstance(s, ast.Expr) and isinstance(s.value, ast.Constant))]
+                if len(body) == 1 and isinstance(body[0], ast.Return) and isinstance(body[0].value, ast.Constant):
+                    got = body[0].value.value
+                else:
+                    got = "not a constant answer"
+            want = pn in true_ones
+            obs.append(Ob(rid, "%s.%s:%s" % (cn, pn, want), _w(m) if m else "src/ir/types.py", got is want,
+                          "%s.%s() resolves to %s and answers %s (must be %s)" % (cn, pn, m.qualname if m else None, got, want)))
+    return obs
